@@ -101,10 +101,14 @@ def aval(v, _depth=0, _seen=None):
     if isinstance(v, (int, float)):
         return anum(v)
     if isinstance(v, str):
+        if len(v) > 200000:
+            return {'t': 'huge'}       # far beyond what the specification computes (it leaves > 100 000 characters open)
         return {'t': 'str', 'v': cps(v)}
     if isinstance(v, datetime.date):
         return adt(v)
     if isinstance(v, (list, dict)):
+        if len(v) > 20000:
+            return {'t': 'huge'}       # the specification leaves containers beyond 10 000 elements open
         if _seen is None:
             _seen = set()
         if _depth >= 16:
@@ -134,7 +138,7 @@ def gval(a, as_float=True):
     if t == 'str':
         return uncps(a['v'])
     if t == 'dt':
-        return datetime.datetime.fromordinal(a['d'] + 1) + datetime.timedelta(milliseconds=a['ms'])
+        return datetime.datetime.fromordinal(a['d'] + 1) + datetime.timedelta(milliseconds=a['ms'], microseconds=a.get('us', 0))
     if t == 'array':
         return [gval(x, as_float) for x in a['v']]
     if t == 'object':
